@@ -23,6 +23,11 @@ tag; the reply gives the coordinates of the observations of the returned track.
         `B:<t>`                   run_routing_backward     → `<path>@<label>` | `attr` (no search yet: AttributeError)
      → the outputs joined by `|` (`_` when there is no op), then `#`, then the entries `s,v,d` (`;`) of the session's
        `output_dict`
+  build <n> <pre> <edges> <ends> <post>
+     the network as `addNode` / `addEdge` fill it: `<pre>` / `<post>` = `addNode` calls before / after the edges, each `v,x,y`
+     (`;`); `<ends>` = per edge `sx,sy,tx,ty`, the coordinates of the two Node objects given to `addEdge`
+     → `NEXT_EDGES` of the nodes 0..n-1 (edge ids `,`, lists `;`, an empty list is `e`) `#` the stored position `x,y` of
+       every node (`-` = not registered) `#` the node ids in insertion order
   fpaths / fsession: the same with weights, cut-offs and labels as IEEE-754 bit patterns (model instantiated at `Float`) -/
 namespace TV.Drv.C07
 open TV.Graph TV.GraphExt TV.Drv
@@ -123,6 +128,21 @@ def geometry? (net : Net W) (af : Bool) (pos lines : String) : Option Scene :=
     else none
   | _, _ => none
 
+def nodeCall? (n : Nat) (s : String) : Option (Nat × (Int × Int)) :=
+  match (intList? s) with
+  | some [v, x, y] => if 0 ≤ v ∧ v.toNat < n then some (v.toNat, (x, y)) else none
+  | _ => none
+
+def ends? (s : String) : Option ((Int × Int) × (Int × Int)) :=
+  match (intList? s) with
+  | some [a, b, c, d] => some ((a, b), (c, d))
+  | _ => none
+
+def showBuilt (n : Nat) (nb : NetObj W (Int × Int)) : String :=
+  joinWith ";" ((List.range n).map (fun u => if (nb.next u).isEmpty then "e" else joinWith "," ((nb.next u).map toString)))
+    ++ "#" ++ joinWith ";" ((List.range n).map (fun v => match posOf nb v with | some p => s!"{p.1},{p.2}" | none => "-"))
+    ++ "#" ++ joinWith "," (nb.nodes.map (fun p => toString p.1))
+
 variable [LT W] [DecidableLT W] [Add W] [OfNat W 0]
 
 def handleW (cmd : String) (args : List String) : String :=
@@ -137,6 +157,18 @@ def handleW (cmd : String) (args : List String) : String :=
         if res.isEmpty then "_" else "|".intercalate res
       | none => "bad-request"
     | _, _ => "bad-request"
+  | "build", [n, pre, es, ends, post] =>
+    match C06.netW? pw n es with
+    | some net =>
+      match (splitTok pre ';').mapM (nodeCall? net.n), (splitTok ends ';').mapM ends?, (splitTok post ';').mapM (nodeCall? net.n) with
+      | some pre, some ends, some post =>
+        if ends.length == net.edges.length then
+          let nb0 : NetObj W (Int × Int) := pre.foldl (fun nb c => addNode nb c.1 c.2) NetObj.empty
+          let nb1 := build nb0 ((net.edges.zip ends).map (fun p => (p.1, p.2.1, p.2.2)))
+          showBuilt net.n (post.foldl (fun nb c => addNode nb c.1 c.2) nb1)
+        else "bad-request"
+      | _, _, _ => "bad-request"
+    | none => "bad-request"
   | "session", [n, order, es, pos, lines, af, ops] =>
     match C06.netW? pw n es, flag? af with
     | some net, some af =>
